@@ -6,7 +6,7 @@ returned re-verified after every later call) + objects handed to a recipe re-ver
 call.  Fault sources: natural part-way failures and failpoint enumeration (sys.monitoring LINE)."""
 from __future__ import annotations
 
-from .common import shard, run_cases, BASE_ASSUMPTIONS
+from .common import shard, run_cases, BASE_ASSUMPTIONS, repo_suite, repo_suite_job
 
 ID = 'C04'
 LEVEL = 'fault_enumeration'
@@ -45,6 +45,13 @@ def required_buckets(tier):
 
 
 def plan(tier, seed):
+    jobs = _plan(tier, seed)
+    if tier != 'quick' or True:
+        jobs = jobs + repo_suite_job()
+    return jobs
+
+
+def _plan(tier, seed):
     if tier == 'quick':
         return (shard('history', 120, 5) + shard('natural', 60, 3) + shard('failpoints', 32, 6, cap=400)
                 + shard('recipe', 60, 2))
@@ -53,6 +60,8 @@ def plan(tier, seed):
 
 
 def run_job(job):
+    if job['kind'] == 'repo_suite':
+        return run_cases(job, repo_suite)
     fn = {'history': history, 'natural': natural, 'failpoints': failpoints, 'recipe': recipe}[job['kind']]
     return run_cases(job, fn)
 
